@@ -53,17 +53,62 @@ type snode struct {
 	kids      []*snode
 	defCase   string
 	vals      []string // candidate values of a leaf
+	rtype     *yang.RType
+	ordUser   bool
+	typeName  string
 }
 
 var c18StrVals = []string{"a", "b", "c", "x y", "", "z·w", "z", "w", "v1", "v2"}
 
-func c18GenSchema(r *core.Rng) (*yang.Stmt, *snode) {
+func c18GenSchema(r *core.Rng) (*yang.Stmt, *snode) { return c18GenSchemaX(r, false) }
+
+// rich: all leaf types (64-bit extremes, decimal64, empty, identityref from
+// other modules, unions, strings needing escaping), user-ordered lists (C19)
+func c18GenSchemaX(r *core.Rng, rich bool) (*yang.Stmt, *snode) {
 	uniq := 0
 	nm := func(p string) string { uniq++; return fmt.Sprintf("%s%d", p, uniq) }
 	var genKids func(depth int, n int, inCase bool) ([]*yang.Stmt, []*snode)
 	leaf := func(name string, allowMand bool) (*yang.Stmt, *snode) {
 		s := yang.S("leaf", name)
 		sn := &snode{kw: "leaf", name: name}
+		if rich && r.Chance(3, 5) {
+			switch r.Intn(8) {
+			case 0:
+				s.Add(yang.S("type", "uint64"))
+				sn.vals, sn.typeName = []string{"0", "18446744073709551615", "9007199254740993", "9007199254740992", "4294967296", "7"}, "uint64"
+			case 1:
+				s.Add(yang.S("type", "int64"))
+				sn.vals, sn.typeName = []string{"-9223372036854775808", "9223372036854775807", "-9007199254740993", "0", "-1"}, "int64"
+			case 2:
+				s.Add(yang.S("type", "decimal64", yang.S("fraction-digits", "3")))
+				sn.vals, sn.typeName = []string{"0.5", "-1.125", "1000000.001", "3.0", "0.001"}, "decimal64"
+			case 3:
+				s.Add(yang.S("type", "empty"))
+				sn.vals, sn.typeName = []string{""}, "empty"
+			case 4:
+				s.Add(yang.S("type", "identityref", yang.S("base", "ids:base-id")))
+				sn.vals, sn.typeName = []string{"ids:near", "ids2:far"}, "identityref"
+			case 5:
+				s.Add(yang.S("type", "union", yang.S("type", "int8"), yang.S("type", "enumeration", yang.S("enum", "auto")), yang.S("type", "string", yang.S("length", "2"))))
+				sn.vals, sn.typeName = []string{"-5", "auto", "ab", "99"}, "union"
+			case 6:
+				s.Add(yang.S("type", "string"))
+				sn.vals, sn.typeName = []string{"a\"b", "<tag> & 'x'", "back\\slash", "tab\there", "nl\nx", "é日😀", " lead", "trail ", "]]>", "{\"k\":1}", "", "null", "true", "12"}, "string"
+			default:
+				s.Add(yang.S("type", "int32"))
+				sn.vals, sn.typeName = []string{"-2147483648", "2147483647", "0", "42"}, "int32"
+			}
+			sn.rtype = yang.RTypeFromStmt(s.Find("type"), nil)
+			if sn.typeName == "identityref" {
+				sn.rtype = &yang.RType{Kind: "identityref", Idents: map[string]bool{"ids:near": true, "ids2:far": true}}
+			}
+			if sn.typeName != "empty" && r.Chance(1, 6) && allowMand {
+				s.Add(yang.S("mandatory", "true"))
+				sn.mandatory = true
+			}
+			return s, sn
+		}
+		defer func() { sn.rtype = yang.RTypeFromStmt(s.Find("type"), nil) }()
 		switch r.Intn(4) {
 		case 0:
 			s.Add(yang.S("type", "string"))
@@ -106,7 +151,11 @@ func c18GenSchema(r *core.Rng) (*yang.Stmt, *snode) {
 			case "leaf-list":
 				name := nm("ll")
 				s := yang.S("leaf-list", name, yang.S("type", "string"))
-				sn := &snode{kw: "leaf-list", name: name, max: -1, vals: []string{"p", "q", "r", "s", "t"}}
+				sn := &snode{kw: "leaf-list", name: name, max: -1, vals: []string{"p", "q", "r", "s", "t"}, rtype: &yang.RType{Kind: "string"}}
+				if rich && r.Bool() {
+					s.Add(yang.S("ordered-by", "user"))
+					sn.ordUser = true
+				}
 				if r.Bool() {
 					sn.min = r.Intn(3)
 					sn.max = sn.min + r.Intn(3)
@@ -132,7 +181,11 @@ func c18GenSchema(r *core.Rng) (*yang.Stmt, *snode) {
 				name := nm("li")
 				s := yang.S("list", name, yang.S("key", "k"), yang.S("leaf", "k", yang.S("type", "string")))
 				sn := &snode{kw: "list", name: name, max: -1}
-				sn.kids = append(sn.kids, &snode{kw: "leaf", name: "k", vals: []string{"k1", "k2", "k3", "k4", "k5"}})
+				if rich && r.Bool() {
+					s.Add(yang.S("ordered-by", "user"))
+					sn.ordUser = true
+				}
+				sn.kids = append(sn.kids, &snode{kw: "leaf", name: "k", vals: []string{"k1", "k2", "k3", "k4", "k5"}, rtype: &yang.RType{Kind: "string"}})
 				ks, kn := genKids(depth+1, r.Range(1, 3), false)
 				s.Add(ks...)
 				sn.kids = append(sn.kids, kn...)
@@ -147,18 +200,18 @@ func c18GenSchema(r *core.Rng) (*yang.Stmt, *snode) {
 				// unique over leaves (direct, or inside a direct non-presence container)
 				var cands []string
 				for _, k := range kn {
-					if k.kw == "leaf" {
+					if k.kw == "leaf" && k.typeName != "empty" {
 						cands = append(cands, k.name)
 					}
 					if k.kw == "container" && !k.presence {
 						for _, kk := range k.kids {
-							if kk.kw == "leaf" {
+							if kk.kw == "leaf" && kk.typeName != "empty" {
 								cands = append(cands, k.name+"/"+kk.name)
 							}
 						}
 					}
 				}
-				if len(cands) > 0 && r.Chance(2, 3) {
+				if len(cands) > 0 && !rich && r.Chance(2, 3) {
 					n := 1
 					if len(cands) > 1 && r.Bool() {
 						n = 2
@@ -198,7 +251,7 @@ func c18GenSchema(r *core.Rng) (*yang.Stmt, *snode) {
 					for _, cse := range sn.kids {
 						good := true
 						for _, k := range cse.kids {
-							if k.mandatory || ((k.kw == "list" || k.kw == "leaf-list") && k.min > 0) || (k.kw == "choice" && k.mandatory) {
+							if isMandatoryNode(k) {
 								good = false
 							}
 						}
@@ -223,7 +276,32 @@ func c18GenSchema(r *core.Rng) (*yang.Stmt, *snode) {
 	ks, kn := genKids(1, r.Range(2, 4), false)
 	top := yang.S("container", "c18", ks...)
 	m := yang.S("module", "m18", yang.S("namespace", "urn:verif:m18"), yang.S("prefix", "m"), top)
+	if rich {
+		m.Add(yang.S("import", "ids", yang.S("prefix", "ids")))
+		yang.SortSections(m)
+	}
 	return m, &snode{kw: "container", name: "c18", kids: kn}
+}
+
+// isMandatoryNode: RFC 6020 section 3.1 "mandatory node" (a non-presence
+// container is one when it has a mandatory node as a child).
+func isMandatoryNode(k *snode) bool {
+	switch k.kw {
+	case "leaf", "choice":
+		return k.mandatory
+	case "list", "leaf-list":
+		return k.min > 0
+	case "container":
+		if k.presence {
+			return false
+		}
+		for _, c := range k.kids {
+			if isMandatoryNode(c) {
+				return true
+			}
+		}
+	}
+	return false
 }
 
 // ---------------------------------------------------------------- data model
